@@ -87,7 +87,7 @@ pub fn convert_def(ast: &ASTTy, imp: &mut Imports, state: &State, ctx: &Context)
                         Some(expr) => convert_node(
                             expr,
                             imp,
-                            &state.expand_ty(true).is_last_must_be_ret(ty.is_some()),
+                            &state.expand_ty(true).is_last_must_be_ret(ret_ty.is_some()),
                             ctx,
                         )?,
                         None => Core::Pass,
